@@ -145,13 +145,16 @@ ATakeDiag(a) == MkArr(SFront(a.sh), LAMBDA idx : At(a, Append(idx, SLast(idx))))
 ADiagonalize(a) == MkArr(Append(a.sh, SLast(a.sh)),
                          LAMBDA idx : IF idx[Len(idx)] = idx[Len(idx) - 1] THEN At(a, SFront(idx)) ELSE DZero)
 \* scatter-ADD of f (shape pre ++ dofmap.sh) into pre ++ <<length>>
-AInflate(f, dm, length) == LET np == Len(f.sh) - Len(dm.sh) IN
+AInflateG(f, dm, length, Plus(_, _)) == LET np == Len(f.sh) - Len(dm.sh) IN
     IF \E k \in 1..Len(dm.v) : IdxVal(dm.v[k]) < 0 \/ IdxVal(dm.v[k]) >= length
     THEN MkArr(Append(Pre(f.sh, np), length), LAMBDA idx : DBad)
     ELSE MkArr(Append(Pre(f.sh, np), length),
-               LAMBDA idx : FoldSeq(DAdd, DZero,
+               LAMBDA idx : FoldSeq(Plus, DZero,
                     [k \in 1..Len(dm.v) |-> IF IdxVal(dm.v[k]) = SLast(idx)
                                             THEN At(f, Pre(idx, np) \o Unflat(k - 1, dm.sh)) ELSE DZero], 1))
+\* numeric: scatter-add; boolean: numpy.add.at on bool arrays is a logical or
+AInflate(f, dm, length) == AInflateG(f, dm, length, DAdd)
+AInflateBool(f, dm, length) == AInflateG(f, dm, length, DOr)
 AReshape(a, sh) == [sh |-> sh, v |-> a.v]
 AChoose(index, choices) == MkArr(index.sh, LAMBDA idx : At(choices, Append(idx, IdxVal(At(index, idx)))))
 ADet(a) == LET n == SLast(a.sh) IN
@@ -231,7 +234,7 @@ Ev(N, k, env, lenv) ==
        [] op = "Take" -> ATake(A(1), A(2))
        [] op = "TakeDiag" -> ATakeDiag(A(1))
        [] op = "Diagonalize" -> ADiagonalize(A(1))
-       [] op = "Inflate" -> AInflate(A(1), A(2), n.p[1])
+       [] op = "Inflate" -> IF n.dt = "b" THEN AInflateBool(A(1), A(2), n.p[1]) ELSE AInflate(A(1), A(2), n.p[1])
        [] op = "Ravel" -> AReshape(A(1), n.sh)
        [] op = "Unravel" -> AReshape(A(1), n.sh)
        [] op = "RavelIndex" -> ARavelIndex(A(1), A(2), n.p[2])
